@@ -3,7 +3,7 @@
 # checks: patch applies, builds, full suite passes with patch, demo fails with patch, demo passes without
 set -u
 export GOFLAGS=-mod=mod GOPROXY=off GOSUMDB=off GOTOOLCHAIN=local; unset GOWORK
-m=$1
+m=$(realpath "$1")
 d=$(mktemp -d /tmp/psval.XXXXXX)
 rsync -a --exclude .git /repo/ $d/
 place=$(head -1 $m/demo_test.go | sed -n 's#^// place at: *##p' | tr -d '\r' | awk '{print $1}')
